@@ -227,9 +227,17 @@ func (s *scn) twinCheck(h uint64, ev *pb.CommitEvent, txs []*pb.BxhTransaction, 
 		da, db := s.reps[0].stateDump(), t.stateDump()
 		var diff []string
 		for _, k := range sim.DiffDumps(da, db) {
-			if !skip[k] {
-				diff = append(diff, k)
+			if skip[k] {
+				continue
 			}
+			if a, b := dumpValue(da, k), dumpValue(db, k); ((a == "" && b == "<absent>") || (a == "<absent>" && b == "")) && !strings.HasPrefix(k, "account-") && !strings.HasPrefix(k, "code-") {
+				// not an effect of the transaction under test: whether a storage key that holds an empty value exists in the
+				// database depends on the node's history (known finding C01/.../storage-key-absent-vs-empty: after a head-block
+				// replacement the rollback writes "" where a node that executed the block once stores nothing)
+				s.res.Count("probe_twin_diff_absent_vs_empty_ignored")
+				continue
+			}
+			diff = append(diff, k)
 		}
 		rc := ref.Receipts[pick]
 		if rc.Status == pb.Receipt_SUCCESS {
